@@ -27,12 +27,16 @@ import (
 	"honnef.co/go/tools/internal/verifx/vx"
 )
 
-const wfRule = "generated: every goto-built CFG with n labelled blocks (targets {return, L0..Ln-1}^2 per block) x escape assignment " +
-	"(per block: none | p = &x | sink(&x); x read and written in every block, also through p) x {defer/recover} and every structured program " +
-	"(construct x operand shape x skeleton x language version 1.21/1.26), each built as a multi-package program with Program.Build under all 16 combinations of " +
-	"{NaiveForm, GlobalDebug, InstantiateGenerics, BuildSerially}; corpora: every package of `go list std`, of honnef.co/go/tools/... and of every */testdata/go1.N module " +
-	"that type-checks, under 4 (quick: naive/lifted x debug) or 16 (thorough) combinations. One evaluation = one function body (declared, anonymous, wrapper, thunk, " +
-	"bound method, generic instance, init) in one mode, checked by an independent well-formedness checker. Non-trivial = function with >= 2 blocks and (>= 1 φ-node or >= 1 split alloc)."
+const wfRule = "generated: (a) every goto-built CFG with n labelled blocks (each block: if c(i) goto/return t1 else goto/return t2) whose local x is read and written in every block, " +
+	"also through a pointer p, x escape assignment per block (none | p = &x | sink(&x)) x {defer+recover}: quick n<=2 complete, n=3 with unordered target pairs and at most one `p = &x`; " +
+	"thorough n<=3 complete (defer variants of n=3 with at most one escaping block), n=4 with unordered target pairs and (no escape | p = &x in the third block); " +
+	"(b) every structured program construct (30: range over int/slice/string/map/chan/array/func, nested range-over-func with defer, defer/recover with named results, closures over loop " +
+	"variables, generics across packages, type switch, select, labelled break/continue, switch/fallthrough, short-circuit, comma-ok forms, conversions, method values/wrappers/thunks, go/defer, " +
+	"builtins, composite literals, split allocs in branches, trivial phis, goto loops) x operand shape (4) x skeleton (4) x language version (1.21, 1.26); every generated program is built as a " +
+	"multi-package program with Program.Build under all 16 combinations of {NaiveForm, GlobalDebug, InstantiateGenerics, BuildSerially}. corpora: every package of `go list std`, of " +
+	"honnef.co/go/tools/... (with test variants) and of the */testdata/go1.N modules (quick: every 8th module) that type-checks, under 4 (quick: naive/lifted x debug) or 16 (thorough) " +
+	"combinations. One evaluation = one function body (declared, anonymous, wrapper, thunk, bound method, generic instance, init) in one mode, checked by an independent well-formedness " +
+	"checker. Non-trivial = function with >= 2 blocks and (>= 1 phi or >= 1 split alloc)."
 
 var wfModes16 = func() []ir.BuilderMode {
 	var out []ir.BuilderMode
@@ -55,7 +59,9 @@ var wfModes16 = func() []ir.BuilderMode {
 	return out
 }()
 
-var wfModes4 = []ir.BuilderMode{0, ir.NaiveForm, ir.GlobalDebug, ir.NaiveForm | ir.GlobalDebug}
+// the quick tier's corpus modes; lifted+debug (what staticcheck itself builds) first, so that it is
+// covered even when the budget runs out early
+var wfModes4 = []ir.BuilderMode{ir.GlobalDebug, ir.NaiveForm, 0, ir.NaiveForm | ir.GlobalDebug}
 
 func wfModeName(m ir.BuilderMode) string {
 	s := m.String()
@@ -66,14 +72,14 @@ func wfModeName(m ir.BuilderMode) string {
 }
 
 type wfCase struct {
-	Kind   string         `json:"kind"` // "corpus" | "goto" | "struct"
-	Corpus string         `json:"corpus,omitempty"`
-	Pkg    string         `json:"pkg,omitempty"`
-	Fn     string         `json:"fn,omitempty"`
-	Mode   int            `json:"mode"`
-	Goto   *wfGotoSpec    `json:"goto,omitempty"`
-	Struct *wfStructSpec  `json:"struct,omitempty"`
-	Rule   string         `json:"rule,omitempty"`
+	Kind   string        `json:"kind"` // "corpus" | "goto" | "struct"
+	Corpus string        `json:"corpus,omitempty"`
+	Pkg    string        `json:"pkg,omitempty"`
+	Fn     string        `json:"fn,omitempty"`
+	Mode   int           `json:"mode"`
+	Goto   *wfGotoSpec   `json:"goto,omitempty"`
+	Struct *wfStructSpec `json:"struct,omitempty"`
+	Rule   string        `json:"rule,omitempty"`
 }
 
 const wfMaxPerRule = 12
@@ -88,16 +94,16 @@ type wfFound struct {
 type wfRun struct {
 	res *vx.Result
 
-	mu        sync.Mutex
-	found     map[string]wfFound
-	perRule   map[string]int
+	mu         sync.Mutex
+	found      map[string]wfFound
+	perRule    map[string]int
 	keysOfRule map[string][]string
-	unassert  map[string]int
-	samples   int
-	harness   int
-	functions atomic.Int64
-	instrs    atomic.Int64
-	nontriv   atomic.Int64
+	unassert   map[string]int
+	samples    int
+	harness    int
+	functions  atomic.Int64
+	instrs     atomic.Int64
+	nontriv    atomic.Int64
 
 	// hot counters (flushed into the result by finish)
 	cBlocks, cPhis, cSplit, cSplitFns, cSkipped, cUnreach, cCross, cRecover, cNoBody atomic.Int64
@@ -257,7 +263,7 @@ func (r *wfRun) finish() {
 // wfAllFunctions returns every function of prog that has or may get a body: members and methods of
 // the given packages, everything irutil.AllFunctions finds, closed under AnonFuncs and under
 // *Function operands (wrappers, thunks, bound methods, instances). Sorted by name for determinism.
-func wfAllFunctions(prog *ir.Program, pkgs []*ir.Package) (out []*ir.Function, panicMsg string) {
+func wfAllFunctions(prog *ir.Program, pkgs []*ir.Package) (out []*ir.Function, external int, panicMsg string) {
 	seen := map[*ir.Function]bool{}
 	var add func(fn *ir.Function)
 	add = func(fn *ir.Function) {
@@ -323,20 +329,34 @@ func wfAllFunctions(prog *ir.Program, pkgs []*ir.Package) (out []*ir.Function, p
 			add(f)
 		}
 	})
-	for f := range seen {
-		out = append(out, f)
+	// only functions with a body are checked; the others (members of dependency packages loaded from
+	// export data) are merely counted by the caller
+	type named struct {
+		fn   *ir.Function
+		name string
 	}
-	sort.Slice(out, func(i, j int) bool {
-		a, b := out[i], out[j]
-		if as, bs := a.String(), b.String(); as != bs {
-			return as < bs
+	var ns []named
+	for f := range seen {
+		if len(f.Blocks) == 0 {
+			external++
+			continue
 		}
-		if a.Pos() != b.Pos() {
-			return a.Pos() < b.Pos()
+		ns = append(ns, named{f, f.String()})
+	}
+	sort.Slice(ns, func(i, j int) bool {
+		a, b := ns[i], ns[j]
+		if a.name != b.name {
+			return a.name < b.name
 		}
-		return a.Synthetic < b.Synthetic
+		if a.fn.Pos() != b.fn.Pos() {
+			return a.fn.Pos() < b.fn.Pos()
+		}
+		return a.fn.Synthetic < b.fn.Synthetic
 	})
-	return out, panicMsg
+	for _, n := range ns {
+		out = append(out, n.fn)
+	}
+	return out, external, panicMsg
 }
 
 func wfPkgOf(fn *ir.Function) string {
@@ -443,10 +463,11 @@ func (r *wfRun) gotoBatch(specs []wfGotoSpec, mode ir.BuilderMode) {
 }
 
 // wfGotoSpecs: the bounded space of goto programs, smallest first.
-//   quick:    n<=2: all CFGs x all escape assignments x {defer};  n=3: CFGs with unordered target pairs x
-//             (no escape | p=&x in one block)
-//   thorough: n<=3: all CFGs x all escape assignments (n<=2 also with defer; n=3 with defer for at most
-//             one escaping block);  n=4: CFGs with unordered target pairs x (no escape | p=&x in the third block)
+//
+//	quick:    n<=2: all CFGs x all escape assignments x {defer};  n=3: CFGs with unordered target pairs x
+//	          (no escape | p=&x in one block)
+//	thorough: n<=3: all CFGs x all escape assignments (n<=2 also with defer; n=3 with defer for at most
+//	          one escaping block);  n=4: CFGs with unordered target pairs x (no escape | p=&x in the third block)
 func wfGotoSpecs(thorough bool) []wfGotoSpec {
 	var all []wfGotoSpec
 	add := func(n int, ordered bool, escLevel int, plain, withDefer bool) {
@@ -505,7 +526,8 @@ func (r *wfRun) structProgram(specs []wfStructSpec, goMinor int, mode ir.Builder
 	for _, bp := range built {
 		irpkgs = append(irpkgs, bp.Pkg)
 	}
-	fns, pmsg := wfAllFunctions(prog, irpkgs)
+	fns, ext, pmsg := wfAllFunctions(prog, irpkgs)
+	r.cNoBody.Add(int64(ext))
 	if pmsg != "" {
 		r.mu.Lock()
 		key := fmt.Sprintf("struct:go1.%d:methodvalue.panic", goMinor)
@@ -537,6 +559,34 @@ func (r *wfRun) structProgram(specs []wfStructSpec, goMinor int, mode ir.Builder
 }
 
 func (r *wfRun) generated() {
+	// structured programs: both language versions × 16 modes
+	type sjob struct {
+		minor int
+		mode  ir.BuilderMode
+	}
+	var sjobs []sjob
+	for _, minor := range []int{21, 26} {
+		for _, m := range wfModes16 {
+			sjobs = append(sjobs, sjob{minor, m})
+		}
+	}
+	ss := wfStructSpecs(26)
+	r.res.Count("structured_specs_go1.26", int64(len(ss)))
+	r.res.Count("structured_specs_go1.21", int64(len(wfStructSpecs(21))))
+	smp := ss[len(ss)/3]
+	r.res.Sample(map[string]any{"kind": "struct", "struct": smp, "source": smp.source("f")})
+	var skipped atomic.Int64
+	wfParallel(len(sjobs), func(i int) {
+		if r.expired() {
+			skipped.Add(1)
+			return
+		}
+		j := sjobs[i]
+		r.structProgram(wfStructSpecs(j.minor), j.minor, j.mode)
+	})
+	if n := skipped.Load(); n > 0 {
+		r.res.NotExhaustive(fmt.Sprintf("time budget reached: %d of %d structured programs not run", n, len(sjobs)))
+	}
 	specs := wfGotoSpecs(vx.Thorough())
 	if os.Getenv("VERIF_C02_ONLY_GEN") == "struct" { // development aid
 		specs = specs[:1]
@@ -559,7 +609,7 @@ func (r *wfRun) generated() {
 			jobs = append(jobs, job{lo, hi, m})
 		}
 	}
-	var skipped atomic.Int64
+	skipped.Store(0)
 	wfParallel(len(jobs), func(i int) {
 		if r.expired() {
 			skipped.Add(1)
@@ -570,34 +620,6 @@ func (r *wfRun) generated() {
 	})
 	if n := skipped.Load(); n > 0 {
 		r.res.NotExhaustive(fmt.Sprintf("time budget reached: %d of %d goto batches not run", n, len(jobs)))
-	}
-	// structured programs: both language versions × 16 modes
-	type sjob struct {
-		minor int
-		mode  ir.BuilderMode
-	}
-	var sjobs []sjob
-	for _, minor := range []int{21, 26} {
-		for _, m := range wfModes16 {
-			sjobs = append(sjobs, sjob{minor, m})
-		}
-	}
-	ss := wfStructSpecs(26)
-	r.res.Count("structured_specs_go1.26", int64(len(ss)))
-	r.res.Count("structured_specs_go1.21", int64(len(wfStructSpecs(21))))
-	smp := ss[len(ss)/3]
-	r.res.Sample(map[string]any{"kind": "struct", "struct": smp, "source": smp.source("f")})
-	skipped.Store(0)
-	wfParallel(len(sjobs), func(i int) {
-		if r.expired() {
-			skipped.Add(1)
-			return
-		}
-		j := sjobs[i]
-		r.structProgram(wfStructSpecs(j.minor), j.minor, j.mode)
-	})
-	if n := skipped.Load(); n > 0 {
-		r.res.NotExhaustive(fmt.Sprintf("time budget reached: %d of %d structured programs not run", n, len(sjobs)))
 	}
 }
 
@@ -761,7 +783,8 @@ func (r *wfRun) checkCorpus(c *wfCorpus, modes []ir.BuilderMode, only func(pkg, 
 			done++
 			continue
 		}
-		fns, pmsg := wfAllFunctions(prog, irpkgs)
+		fns, ext, pmsg := wfAllFunctions(prog, irpkgs)
+		r.cNoBody.Add(int64(ext))
 		if pmsg != "" {
 			key := fmt.Sprintf("%s:methodvalue.panic", wfKeyPart(c.Name))
 			r.mu.Lock()
@@ -858,7 +881,7 @@ func (r *wfRun) corpora() {
 			res.Count("packages_repo", int64(len(c.Pkgs)))
 			if c.Skipped > 0 {
 				res.Count("packages_repo_with_errors", int64(c.Skipped))
-					res.NotExhaustive(fmt.Sprintf("%d repository packages did not load without errors: %s", c.Skipped, strings.Join(c.Why, "; ")))
+				res.NotExhaustive(fmt.Sprintf("%d repository packages did not load without errors: %s", c.Skipped, strings.Join(c.Why, "; ")))
 			}
 			if done := r.checkCorpus(c, modes, nil); done < len(modes) {
 				res.NotExhaustive(fmt.Sprintf("time budget reached: repository checked in %d of %d modes", done, len(modes)))
@@ -936,12 +959,13 @@ func TestVerifC02(t *testing.T) {
 	} else {
 		res.Count("checker_selftest_corruptions_detected", int64(det))
 	}
-	res.SetBudget(vx.Budget(100*time.Second, 17*time.Minute))
+	budget := vx.Budget(100*time.Second, 17*time.Minute)
+	res.SetBudget(budget)
 	only := os.Getenv("VERIF_C02_ONLY") // development aid: gen | corpora
 	t0 := time.Now()
 	if only == "" || only == "gen" {
 		// the generated programs get at most this share of the budget; the corpora get the rest
-		r.phaseEnd = t0.Add(vx.Pick(35*time.Second, 7*time.Minute))
+		r.phaseEnd = t0.Add(budget * 35 / 100)
 		r.generated()
 		r.phaseEnd = time.Time{}
 		res.Count("ms_generated", time.Since(t0).Milliseconds())
